@@ -5,6 +5,7 @@ package main
 // miniredis pre-hook: command log with executed order, scheduler gate and fault injector.
 
 import (
+	"time"
 	"bufio"
 	"bytes"
 	"runtime"
@@ -206,6 +207,10 @@ func (h *vpRedisHook) hook(peer *server.Peer, cmd string, args ...string) bool {
 	switch f.Kind {
 	case "err_before":
 		peer.WriteError("ERR vp injected failure (before effect)")
+	case "slow_err":
+		// a time-out: no answer for 2.5 s, then a failure without effect
+		time.Sleep(2500 * time.Millisecond)
+		peer.WriteError("ERR vp injected failure (slow, before effect)")
 	case "err_after":
 		h.execDummy(peer, full)
 		peer.WriteError("ERR vp injected failure (after effect, reply lost)")
